@@ -209,12 +209,40 @@ def scl_cfg(path, sync, initial, timeout, steps, tmax, mode, dump=False, preset=
     open(path, 'w').write("\n".join(s) + "\n")
 
 
-def scl_state(m, base):
-    return [m['status'], m['cur'], m['reqStart'] + base, m['lastSyncMs'] + base, v_model_to_real(m['epoch'], INV_MODEL_SCL), (m['prev'] + base) % 65536 if m['init'] else 0,
+def build_clockdrv32():
+    """clockdrv compiled against copies of SystemClock.h / SystemClockLoop.h (generated from REPO's working tree on every
+    build) in which `unsigned long` is uint32_t, as on the Arduino boards: millis() wraps at 2^32."""
+    import re as _re
+    import shutil
+    gen = os.path.join(common.BUILD, 'gen32')
+    shutil.rmtree(gen, ignore_errors=True)
+    src = os.path.join(common.REPO, 'src', 'ace_time')
+    os.makedirs(os.path.join(gen, 'ace_time', 'clock'))
+    for e in os.listdir(src):
+        if e != 'clock':
+            os.symlink(os.path.join(src, e), os.path.join(gen, 'ace_time', e))
+    n = 0
+    for e in os.listdir(os.path.join(src, 'clock')):
+        p = os.path.join(src, 'clock', e)
+        if e in ('SystemClock.h', 'SystemClockLoop.h'):
+            t = open(p).read()
+            t2 = _re.sub(r'\b(\d+)UL\b', r'((VERIF_UL) \1)', t.replace('unsigned long', 'VERIF_UL'))
+            n += t.count('unsigned long')
+            open(os.path.join(gen, 'ace_time', 'clock', e), 'w').write('#include <stdint.h>\n' + t2)
+        else:
+            os.symlink(p, os.path.join(gen, 'ace_time', 'clock', e))
+    if n < 5:
+        raise common.MachineryError('32-bit variant: only %d occurrences of `unsigned long` found in the clock headers' % n)
+    return common.build_binary('clockdrv32', ['clockdrv.cpp'], 'san', extra_flags=['-I' + gen, '-DVERIF_UL=uint32_t'])   # (the cache key already hashes the headers the copies derive from)
+
+
+def scl_state(m, base, wrap=None):
+    w = (lambda x: x % wrap) if wrap else (lambda x: x)
+    return [m['status'], m['cur'], w(m['reqStart'] + base), w(m['lastSyncMs'] + base), v_model_to_real(m['epoch'], INV_MODEL_SCL), (m['prev'] + base) % 65536 if m['init'] else 0,
             1 if m['init'] else 0, v_model_to_real(m['last'], INV_MODEL_SCL), v_model_to_real(m['bv'], INV_MODEL_SCL), m['bw'], m['req']]
 
 
-def scl_replay_edges(chk, exe, edges, conf, tag, preset=None, quiet=False):
+def scl_replay_edges(chk, exe, edges, conf, tag, preset=None, quiet=False, wrap32=False):
     """quiet: only the last loop() call of each script is followed by reads (the application does not look at the clock in between)"""
     sync, initial, timeout, mode = conf
     pv = INV_MODEL_SCL if preset is None else preset
@@ -228,7 +256,7 @@ def scl_replay_edges(chk, exe, edges, conf, tag, preset=None, quiet=False):
         if p is None:
             raise common.MachineryError('SystemClockLoop edge from unreachable node')
         seq = p + [e]
-        base = [0, 65536 * 3, 2**32 - 65536 * 0 - 4000 if False else 65536 * 11][n % 3]
+        base = [0, 65536 * 3, 65536 * 11][n % 3] if not wrap32 else [2**32 - 1500, 2**32 - 65536 - 700, 2**32 - 30000][n % 3]
         scripts.append(('S @ID@ %d %d %d %s %d %s' % (sync, initial, timeout, mode, base, 'inv' if preset is None else preset),
                         ['%s %d %d %s' % ('Q' if quiet and k < len(seq) - 1 else 'L', x['d'], 1 if x['ready'] else 0, v_model_to_real(x['rv'], INV_MODEL_SCL)) for k, x in enumerate(seq)]))
         metas.append((seq, base))
@@ -241,7 +269,7 @@ def scl_replay_edges(chk, exe, edges, conf, tag, preset=None, quiet=False):
             continue
         for e, st in zip(seq[-len(steps):] if quiet else seq, steps):
             nsteps += 1
-            want = scl_state(e['to'], base)
+            want = scl_state(e['to'], base, 2**32 if wrap32 else None)
             got = st[:11]
             if not e['to']['init']:
                 got = got[:4] + ['-', '-'] + got[6:]
